@@ -95,7 +95,7 @@ func registerIntrinsics(e *Engine) {
 	})
 	reg("zzDigest", func(fr *Frame, a []Value) Value {
 		p := fr.p
-		alg := concStr(a[1])
+		alg := concStr(p.conc(a[1].(Str)))
 		n, _ := p.freshName(concStr(a[0]))
 		id := smt.Var(n, smt.Int)
 		p.newInput(concStr(a[0]), "digest:"+alg, id)
@@ -127,6 +127,11 @@ func registerIntrinsics(e *Engine) {
 	})
 	reg("zzSymbolic", func(fr *Frame, a []Value) Value { return smt.True })
 	reg("zzYield", func(fr *Frame, a []Value) Value { fr.p.yield(); return nil })
+	reg("zzPreempt", func(fr *Frame, a []Value) Value {
+		fr.p.preempt = int(concI(a[0]))
+		fr.p.eng.noteUse(fmt.Sprintf("tasks: up to %d forced pre-emptions at sync.Mutex.Unlock", fr.p.preempt))
+		return nil
+	})
 	reg("zzNote", func(fr *Frame, a []Value) Value { fr.p.eng.noteUse("note: " + concStr(a[0])); return nil })
 	reg("zzRedirect", func(fr *Frame, a []Value) Value {
 		name := concStr(a[0])
